@@ -84,6 +84,11 @@ func runSchedJob(c *Ctl, job *Job, idx int, res *RunResult) {
 			c.Count("shared_nested_worlds")
 		}
 	}
+	if world%3 == 1 {
+		// a third of the worlds: a stage goroutine whose task just returned may be held before one
+		// of its next statements while scheduling passes go on (e.g. between its two status stores)
+		prof.PreemptPct, prof.PreemptDepth = 25, 12
+	}
 	prof.Gen = gen
 	if !c.Ch.replaying {
 		c.Ch.Reseed(seedFor(job.Base^0x5eed0001, world))
